@@ -168,11 +168,19 @@ func runTScenario(t *testing.T, raw []byte) (lines []M, problem string) {
 				}
 				// the observation and the log line are taken in one critical section of the recorder
 				rec.mu.Lock()
-				if early {
-					rec.lines = append(rec.lines, M{"ev": "FnEnd", "x": x, "k": k, "r": "R0", "e": term{Op: "ECoop", Ch: []term{}}, "canceled": exec.IsCanceled(), "t": rec.vnow()})
-				} else {
-					rec.lines = append(rec.lines, M{"ev": "FnEnd", "x": x, "k": k, "r": f.R, "e": f.E, "canceled": exec.IsCanceled(), "t": rec.vnow()})
+				le2, canc2 := exec.LastError(), exec.IsCanceled()
+				for i := 0; i < 100; i++ {
+					a, b := exec.LastError(), exec.IsCanceled()
+					if a == le2 && b == canc2 {
+						break
+					}
+					le2, canc2 = a, b
 				}
+				endLine := M{"ev": "FnEnd", "x": x, "k": k, "r": f.R, "e": f.E, "canceled": canc2, "t": rec.vnow(), "lr": resName(exec.LastResult()), "le": projectErrT(le2)}
+				if early {
+					endLine["r"], endLine["e"] = "R0", term{Op: "ECoop", Ch: []term{}}
+				}
+				rec.lines = append(rec.lines, endLine)
 				rec.mu.Unlock()
 				if early {
 					return "", errCoop
@@ -191,6 +199,9 @@ func runTScenario(t *testing.T, raw []byte) (lines []M, problem string) {
 				case "Start":
 					ctx, cancel := context.WithCancel(context.WithValue(context.Background(), xKey, e.X))
 					cancels[e.X] = cancel
+					if e.Id == "precanceled" {
+						cancel() // the caller's context is already done when the execution starts
+					}
 					ex := failsafe.NewExecutor[string](bs.policies...).WithContext(ctx).
 						OnSuccess(func(ev failsafe.ExecutionDoneEvent[string]) { rec.info("ExecOnSuccess", 0, ev, ev.Result, ev.Error, nil) }).
 						OnFailure(func(ev failsafe.ExecutionDoneEvent[string]) { rec.info("ExecOnFailure", 0, ev, ev.Result, ev.Error, nil) }).
